@@ -8,7 +8,8 @@ META = {
     'rule': 'generated histories over all write routes + reads; one '
             'evaluation = one request judged on the generation columns of '
             'the dumps around it and on the generation it returned; distinct '
-            '= (route, entity kind, what changed | returned-generation)',
+            '= (route, entity kind, what changed | returned-generation)'
+            ' plus a concurrent part: the C05-C07 scenario catalogue (and provider-tree races) run under the transaction-granularity scheduler, the same oracle evaluated on every committed state / committing step of every explored interleaving',
     'floors': {'concurrent_schedules': 100,
                'provider_changes_judged': 20, 'placements_judged': 10,
                'consumer_writes_judged': 5,
